@@ -248,6 +248,19 @@ CLAIMS = {
              "artist by exact clipping resp. on a 17×17 generic sample grid. Trusted: Lean kernel/Mathlib/standard axioms; matplotlib's rendering of the artists it is handed; harness. "
              "Parallel/colinear branches of line_intersection (tolerance based) are outside 'general position'.",
         ref="§7 C16"),
+    "C17": dict(
+        technique="Lean 4 proof (floor step across one grid line; index difference ±e_b ⇒ edge = ± star vector; rhombus at every grid vertex) + exact re-check in index space + output oracle",
+        text="Kernel-checked: the pentagrid index (floor) is unchanged when no integer is crossed and rises by exactly one across exactly one grid line; for index vectors in ℤ^B and "
+             "star vectors in any abelian group, faces whose indices differ by e_b are mapped to points differing by exactly star_b (−star_b for −e_b), so every edge is parallel to a "
+             "star direction and all edges have one length; the four faces round a grid vertex map to a parallelogram with sides star_b1, star_b2 (a rhombus); index vectors equal "
+             "modulo a relation among the star vectors map to the same point; the executable edge test is sound. Index vectors are reconstructed from koala's output along a spanning "
+             "tree and the model re-checks exactly that every edge's index difference is ±e_b and that all index vectors are distinct modulo the cyclotomic relations; the statement "
+             "(unit square, connected, equal lengths, rhombi, star directions/Penrose angles, no crossings, no coincident vertices, no dangling edges, V−E+F=1) is evaluated on the "
+             "output for B∈{3,5,7,9}, default/scalar/random/generic offsets, angle disorder and penrose_tiling seeds.",
+        note="Partial: de Bruijn's theorem (planarity and injectivity of the dual of a generic multigrid), connectivity and Euler's formula are not proved; they are decided on the "
+             "output with tolerance-guarded float predicates. Linear independence of roots of unity modulo cyclotomic relations is trusted. Non-generic offsets (three lines through a "
+             "point; always for random_offsets(3)) are detected independently and excluded. Trusted: Lean kernel/Mathlib/standard axioms; harness.",
+        ref="§7 C17"),
 }
 
 PENDING_REASON = "check not built yet in this revision (work in progress; see DESIGN.md §7 for the planned Lean model and tie)"
